@@ -38,7 +38,8 @@ pub struct Cfg {
     pub inherit: bool,
     /// session variant: 0 = base; 1 = FDT carousel by start-time interval, RFC 3926 profile, no SCT in
     /// the FDT packets; 2 = FDT instance ids wrapping (start id 0xFFFFE), 16-bit TOIs starting at 65534;
-    /// 3 = FDT duration 20 s in a session of 32 s, joins enumerated in the cycle at 24 s (the first instance has expired)
+    /// 3 = FDT duration 20 s in a session of 32 s, joins enumerated in the cycle at 24 s (the first instance has expired);
+    /// 4 = gzip-compressed FDT instances in source blocks of two 64-byte symbols
     #[serde(default)]
     pub sess_var: u8,
     /// objects of six and more blocks received with object_max_cache_size = 12 bytes and no error memory: a join in
@@ -111,6 +112,14 @@ pub fn prepare(c: &Cfg) -> Result<Prepared, String> {
         }
         3 => {
             s.fdt_duration_s = 20;
+        }
+        4 => {
+            // gzip-compressed FDT instances cut into source blocks of two 64-byte symbols (a compressed instance
+            // longer than one source block); the objects keep their own OTI
+            if !c.inherit {
+                s.oti = OtiSpec::new(Scheme::NoCode, 64, 2, 0, true);
+            }
+            s.fdt_cenc = 3;
         }
         _ => {}
     }
@@ -214,7 +223,7 @@ pub fn configs(thorough: bool) -> Vec<Cfg> {
                                         }
                                         v.push(Cfg { scheme, nobj, inband, cenc, interval, full_fdt, fdt_e, with_empty, count, interleave, fdt_cenc: 0, split_sig: false, inherit: false, sess_var: 0, small_cache: false, stream: false });
                                         if count == 1 && interleave == 1 && fdt_e == 1424 {
-                                            for sess_var in [1u8, 2, 3] {
+                                            for sess_var in [1u8, 2, 3, 4] {
                                                 v.push(Cfg { scheme, nobj, inband, cenc, interval, full_fdt, fdt_e, with_empty, count, interleave, fdt_cenc: 0, split_sig: false, inherit: false, sess_var, small_cache: false, stream: false });
                                             }
                                         }
